@@ -38,6 +38,12 @@ CHECKS = {
     "C17": ("Sufficient condition: arrays proved equal to Gram forms within C17's bounds (PSD / Schwarz then follow from a TRUSTED lemma); direct "
             "solver proofs of |S|<=1, 2x2 minors, (ab|ab)>=0 and the Schwarz inequality for s-type shells using exp / Boys bound instances. "
             "A Gram-form mismatch is reported only if the inequalities fail on the real output.", SX + " + trusted Gram lemma", "5 C17"),
+    "C18": ("Regular-language obligations (z3 sequence theory) on the parsers' own patterns read from the source; the real parsers on "
+            "skeleton files with layout chosen by symbolic integers (CrossHair, each property with a refuted wrong twin) and enumerated "
+            "concretely; from_pyscf on symbolic exponents / coefficients (SX).", "z3 regex theory + CrossHair (z3) on the real parsers + SX", "5 C18"),
+    "C19": ("One inductive step per public function from an arbitrary symbolic state: every argument element unchanged, second call == "
+            "first call on fresh copies, numpy error state unchanged on returning and raising paths; fault points after seterr enumerated; "
+            "renormalisation after parameter changes.", SX + " + fault enumeration", "5 C19"),
     "C20": ("Screening predicate == documented cutoff with the smallest exponents (min as path splits), None / bool handling, monotonicity in the "
             "tolerance, screened matrices == unscreened with exactly those blocks zeroed through all assembly paths, conservative bound for "
             "s-type pairs (solver-proved with ln/exp monotonicity instances).", SX + " + path exploration", "5 C20"),
